@@ -440,7 +440,7 @@ def _shard(ctx, shard, nshards):
         ctx.report_direct(fails, case)
         return
     mp_budget = [ctx.scale(2, 12)]
-    n_machines = ctx.scale(100, 600)
+    n_machines = ctx.scale(260, 600)
 
     class Machine(RuleBasedStateMachine):
         def __init__(self):
